@@ -1579,6 +1579,56 @@ func ruleApplyBeforeRotate(r *Report) {
 		} else {
 			r.OK(rule, key, rot[0].Pos(), "rotation only after the mutation was applied")
 		}
+		// the rotation replaces DB.memStore: what is read from the field in front of the rotation is the store that was
+		// handed to the flusher when it is used behind it — a mutation applied to it is acknowledged, logged in the new
+		// WAL file, and lives in a store that is written out and dropped without it
+		skey := key + "/memstore-read-after-rotation"
+		stale := ""
+		eachInstr(fn, func(l Site) {
+			ld, ok := l.Instr.(*ssa.UnOp)
+			if !ok || ld.Op != token.MUL {
+				return
+			}
+			if ty, fld, _, isF := fieldAddrName(ld.X); !isF || ty != "simpledb.DB" || fld != "memStore" {
+				return
+			}
+			for _, ro := range rot {
+				if !reachableFromSite(l, ro) {
+					continue
+				}
+				// a use of the loaded pointer that the rotation can reach
+				uses := map[ssa.Value]bool{ld: true}
+				for changed := true; changed; {
+					changed = false
+					eachInstr(fn, func(u Site) {
+						if ph, isPhi := u.Instr.(*ssa.Phi); isPhi && !uses[ph] {
+							for _, e := range ph.Edges {
+								if uses[e] {
+									uses[ph] = true
+									changed = true
+								}
+							}
+						}
+					})
+				}
+				eachInstr(fn, func(u Site) {
+					ci, isC := u.Instr.(ssa.CallInstruction)
+					if !isC || u.Instr == ro.Instr {
+						return
+					}
+					for _, a := range ci.Common().Args {
+						if uses[a] && reachableFromSite(ro, u) {
+							stale = fmt.Sprintf("DB.memStore is read at %s, the rotation at %s replaces it, and the value read before is used at %s", p.Pos(l.Pos()), p.Pos(ro.Pos()), p.Pos(u.Pos()))
+						}
+					}
+				})
+			}
+		})
+		if stale != "" {
+			r.Bad(rule, skey, rot[0].Pos(), "the memstore pair is taken from the database in front of a rotation and used behind it ("+stale+"): a Put that triggers the rotation goes into the store that is being flushed — it is acknowledged and logged in the new WAL file, a Get after the flush does not find it, and only a restart brings it back")
+		} else {
+			r.OK(rule, skey, rot[0].Pos(), "nothing read from DB.memStore in front of the rotation is used behind it")
+		}
 	}
 	if n == 0 {
 		r.Missing(rule, rule+"/sites", "no logging function rotates the WAL")
@@ -2260,6 +2310,53 @@ func ruleWalRemovalOrder(r *Report) {
 				if !asc {
 					return false
 				}
+				// everything goes: the removal in the loop is not picked by the entry's name. (The flush reclaims by name,
+				// `name <= last`; the same loop used for the whole folder with an empty bound must not compare names —
+				// an extension compared with the extension of "" matches nothing, the sweep removes nothing and the
+				// RemoveAll behind it unlinks in directory order again.) Branches that a constant decides are followed
+				// on the side the constant takes.
+				constOff := map[Edge]bool{}
+				for _, b := range g.Blocks {
+					if len(b.Instrs) == 0 || len(b.Succs) != 2 {
+						continue
+					}
+					if iff, isIf := b.Instrs[len(b.Instrs)-1].(*ssa.If); isIf {
+						if val, isK := constCondition(iff.Cond); isK {
+							if val {
+								constOff[Edge{b, b.Succs[1]}] = true
+							} else {
+								constOff[Edge{b, b.Succs[0]}] = true
+							}
+						}
+					}
+				}
+				pruneStoredConditions(g, constOff)
+				live := reachFrom(g.Blocks[0], constOff)
+				for _, b := range g.Blocks {
+					if !live[b] || len(b.Instrs) == 0 || !reachFrom(b, constOff)[rm.Block] || !reachFrom(rm.Block, constOff)[b] {
+						continue
+					}
+					iff, isIf := b.Instrs[len(b.Instrs)-1].(*ssa.If)
+					if !isIf {
+						continue
+					}
+					bo, isB := iff.Cond.(*ssa.BinOp)
+					if !isB {
+						continue
+					}
+					if bt, isBasic := bo.X.Type().Underlying().(*types.Basic); !isBasic || bt.Info()&types.IsString == 0 {
+						continue
+					}
+					fromName := func(v ssa.Value) bool {
+						return valueDependsOn(v, func(x ssa.Value) bool {
+							c, isC := x.(*ssa.Call)
+							return isC && c.Call.IsInvoke() && c.Call.Method.Name() == "Name"
+						})
+					}
+					if fromName(bo.X) || fromName(bo.Y) {
+						return false
+					}
+				}
 				loopRm = true
 			} else if !precedes(lists[0], rm) {
 				return false
@@ -2764,4 +2861,32 @@ func ruleReplayCountsEveryMutation(r *Report) {
 	} else {
 		r.OK(rule, key, fn.Pos(), fmt.Sprintf("%d applying call(s), each behind the counter's increment", n))
 	}
+}
+
+// constCondition: the value of a condition that is a boolean constant or a comparison of two constants (go/ssa does not
+// fold `"" == ""`, which is what is left of `bound == ""` once an inlined helper's parameter is the literal).
+func constCondition(v ssa.Value) (bool, bool) {
+	switch x := v.(type) {
+	case *ssa.Const:
+		if x.Value != nil && x.Value.Kind() == constant.Bool {
+			return constant.BoolVal(x.Value), true
+		}
+	case *ssa.BinOp:
+		a, okA := x.X.(*ssa.Const)
+		b, okB := x.Y.(*ssa.Const)
+		if !okA || !okB || a.Value == nil || b.Value == nil {
+			return false, false
+		}
+		switch x.Op {
+		case token.EQL, token.NEQ, token.LSS, token.LEQ, token.GTR, token.GEQ:
+			if a.Value.Kind() != b.Value.Kind() || (a.Value.Kind() != constant.String && a.Value.Kind() != constant.Int && a.Value.Kind() != constant.Bool) {
+				return false, false
+			}
+			if a.Value.Kind() == constant.Bool && x.Op != token.EQL && x.Op != token.NEQ {
+				return false, false
+			}
+			return constant.Compare(a.Value, x.Op, b.Value), true
+		}
+	}
+	return false, false
 }
